@@ -199,8 +199,10 @@ func stallDetector(done chan struct{}, current *atomic.Value, out string, res *R
 		}
 		now := atomic.LoadUint64(&Progress)
 		cpu := cpuTime()
-		if now != last || cpu-lastCPU > 500*time.Millisecond {
-			last, lastCPU, idle = now, cpu, 0
+		busy := cpu-lastCPU > 400*time.Millisecond // per 5 s interval: background goroutines of the stores use far less
+		lastCPU = cpu
+		if now != last || busy {
+			last, idle = now, 0
 			continue
 		}
 		idle++
